@@ -20,6 +20,8 @@ type Item struct {
 	Chunk  *SeqChunk   // sequential enumeration item (no scheduler search)
 	Cfg    mcrt.Config // MaxSteps/FairAfter overrides (zero = defaults)
 	Race   bool        // run in the race variant of the driver (ThreadSanitizer as per-execution oracle)
+	All    bool        // unbounded search over all interleavings, pruned by happens-before state keys
+	Ticks  int         // with All: how many early environment ticks are offered
 }
 
 type SeqFound struct {
